@@ -368,9 +368,9 @@ theorem pk_attempt_congr {bytes : Array Nat} (hascii : ∀ b ∈ bytes, b < 128)
     (∀ pos entry, Pk.attemptAt prog (A bytes unicode) fuel pos entry =
       Pk.attemptAt prog (U bytes unicode) fuel pos entry) ∧
     (∀ pos, Pk.attempt prog (A bytes unicode) fuel pos = Pk.attempt prog (U bytes unicode) fuel pos) :=
-  ⟨fun _ _ => pk_run_congr hascii unicode prog fuel fuel _ _ 0 0,
-   fun _ _ => pk_run_congr hascii unicode prog fuel fuel _ _ 0 0,
-   fun _ => pk_run_congr hascii unicode prog fuel fuel _ _ 0 0⟩
+  ⟨fun _ _ => pk_run_congr hascii unicode prog fuel _ _ _ 0 0,
+   fun _ _ => pk_run_congr hascii unicode prog fuel _ _ _ 0 0,
+   fun _ => pk_run_congr hascii unicode prog fuel _ _ _ 0 0⟩
 
 /-- A PikeVM match found from states in range ends in range (used for `findIter`). -/
 theorem pk_run_end_le {bytes : Array Nat} (hascii : ∀ b ∈ bytes, b < 128) (unicode : Bool)
